@@ -286,7 +286,12 @@ fn gen_large_selection(rng: &mut Rng) -> Sc {
 fn gen_crit(rng: &mut Rng, mesh: &M, nrefs: usize) -> Crit {
     let size = mesh.size();
     if rng.chance(0.35) {
-        let dir = if rng.chance(0.5) {
+        let like_a_face = rng.chance(0.25);
+        let dir = if like_a_face {
+            // "facing the way that face does": the normal of one of the faces (or its opposite)
+            let n = mesh.normal(rng.below(mesh.f.len())).unwrap_or([0.0, 0.0, 1.0]);
+            if rng.chance(0.8) { n } else { scale(n, -1.0) }
+        } else if rng.chance(0.5) {
             *rng.pick(&[[0.0, 0.0, 1.0], [0.0, 0.0, -1.0], [1.0, 0.0, 0.0], [0.0, 1.0, 0.0]])
         } else {
             scale(unit([rng.normal(), rng.normal(), rng.normal() + 1e-3]), rng.uniform(0.5, 3.0))
@@ -297,6 +302,7 @@ fn gen_crit(rng: &mut Rng, mesh: &M, nrefs: usize) -> Crit {
             1 => 4.0,
             2 => std::f64::consts::PI,
             3 => std::f64::consts::FRAC_PI_2,
+            _ if like_a_face && rng.chance(0.6) => rng.uniform(0.01, 0.4),
             _ => rng.uniform(0.2, 2.9),
         };
         Crit::Facing { dir, angle }
@@ -510,7 +516,7 @@ impl Property for C14 {
 
     fn runs(&self, tier: Tier) -> u64 {
         match tier {
-            Tier::Quick => 100_000,
+            Tier::Quick => 150_000,
             Tier::Thorough => 1_500_000,
         }
     }
@@ -667,6 +673,20 @@ impl Property for C14 {
                     }
                 }
             }
+        }
+        // set algebra has laws about repeated criteria (idempotence, absorption): now and then
+        // later steps repeat the criterion of an earlier step, under the same or another mode
+        if rng.chance(0.4) {
+            for _ in 0..rng.below(3) {
+                ops.push(Op { crit: gen_crit(rng, &mesh, nrefs), mode: *rng.pick(&[Mode::Add, Mode::Add, Mode::Remove, Mode::Keep]) });
+            }
+            for _ in 0..1 + rng.below(3) {
+                let src = rng.below(ops.len());
+                let crit = ops[src].crit.clone();
+                let mode = if rng.chance(0.6) { ops[src].mode } else { *rng.pick(&[Mode::Add, Mode::Remove, Mode::Keep]) };
+                ops.push(Op { crit, mode });
+            }
+            label.push_str("+repeated-criteria");
         }
         let one_slot = rng.chance(0.4);
         let nprobe = rng.below(9).min(nf);
